@@ -28,7 +28,7 @@ from types import TracebackType
 from typing import Awaitable, Dict, List, Optional, Set, Tuple, Type, Union
 
 from ._cache import DNSCache
-from ._dns import DNSQuestion, DNSQuestionType
+from ._dns import DNSPointer, DNSQuestion, DNSQuestionType, DNSRecord
 from ._engine import AsyncEngine
 from ._exceptions import NonUniqueNameException, NotRunningException
 from ._handlers.multicast_outgoing_queue import MulticastOutgoingQueue
@@ -70,6 +70,7 @@ from .const import (
     _CHECK_TIME,
     _CLASS_IN,
     _CLASS_UNIQUE,
+    _DNS_OTHER_TTL,
     _FLAGS_AA,
     _FLAGS_QR_QUERY,
     _FLAGS_QR_RESPONSE,
@@ -79,6 +80,7 @@ from .const import (
     _MDNS_PORT,
     _ONE_SECOND,
     _REGISTER_TIME,
+    _SERVICE_TYPE_ENUMERATION_NAME,
     _STARTUP_TIMEOUT,
     _TYPE_PTR,
     _UNREGISTER_TIME,
@@ -367,8 +369,36 @@ class Zeroconf(QuietLogger):
         """Registers service information to the network with a default TTL.
         Zeroconf will then respond to requests for information for that
         service."""
+        old_info = self.registry.async_get_info_name(info.key)
         self.registry.async_update(info)
+        if old_info is not None:
+            self._async_withdraw_queued_answers(old_info, info)
         return asyncio.ensure_future(self._async_broadcast_service(info, _REGISTER_TIME, None))
+
+    def _async_withdraw_queued_answers(self, old_info: ServiceInfo, new_info: Optional[ServiceInfo]) -> None:
+        """Drop queued multicast answers that hold records of a service which no longer apply.
+
+        Answers waiting in the aggregation queues were built from the registry
+        as it was when the query arrived; once the service is unregistered or
+        updated they must not be multicast any more.
+        """
+        withdrawn: Set[DNSRecord] = {old_info.dns_pointer(), old_info.dns_service(), old_info.dns_text()}
+        withdrawn.update(old_info.get_address_and_nsec_records())
+        if new_info is not None:
+            withdrawn -= {new_info.dns_pointer(), new_info.dns_service(), new_info.dns_text()}
+            withdrawn -= new_info.get_address_and_nsec_records()
+        if old_info.server_key is not None:
+            for other in self.registry.async_get_infos_server(old_info.server_key):
+                if other is not new_info:
+                    withdrawn -= other.get_address_and_nsec_records()
+        if not self.registry.async_get_infos_type(old_info.type.lower()):
+            # the last service of this type is gone: so is its type enumeration answer
+            withdrawn.add(
+                DNSPointer(_SERVICE_TYPE_ENUMERATION_NAME, _TYPE_PTR, _CLASS_IN, _DNS_OTHER_TTL, old_info.type, 0.0)
+            )
+        if withdrawn:
+            self.out_queue.async_remove_answers(withdrawn)
+            self.out_delay_queue.async_remove_answers(withdrawn)
 
     async def async_get_service_info(
         self, type_: str, name: str, timeout: int = 3000, question_type: Optional[DNSQuestionType] = None
@@ -466,6 +496,7 @@ class Zeroconf(QuietLogger):
         assert info.server_key is not None
         entries = self.registry.async_get_infos_server(info.server_key)
         broadcast_addresses = not bool(entries)
+        self._async_withdraw_queued_answers(info, None)
         return asyncio.ensure_future(
             self._async_broadcast_service(info, _UNREGISTER_TIME, 0, broadcast_addresses)
         )
@@ -479,6 +510,8 @@ class Zeroconf(QuietLogger):
         for info in service_infos:
             self._add_broadcast_answer(out, info, 0)
         self.registry.async_remove(service_infos)
+        for info in service_infos:
+            self._async_withdraw_queued_answers(info, None)
         return out
 
     async def async_unregister_all_services(self) -> None:
